@@ -7,7 +7,7 @@ def run(tier, seed):
     run = Run("C12", tier, seed)
     build_harness()
     th = tier == "thorough"
-    recs, matrix = sweep(run, "C12", seed, 3, 400 if th else 60, 6 if th else 5)
+    recs, matrix = sweep(run, "C12", seed, 3, 1500 if th else 150, 6 if th else 5)
     run.extra["applicability_matrix"] = matrix
     mid = recs[len(recs) // 2]
     run.sample({k: mid[k] for k in list(mid)[:9]})
